@@ -198,6 +198,15 @@ def real_framer(ctx: Ctx):
     big = ccsds_bytes(bytes(65536), apid=2)                 # the largest packet CCSDS allows (length field 0xFFFF)
     cases["a maximum-size packet between two small ones"] = one + big + one
     counts = {"a maximum-size packet between two small ones": 3}
+    # every packet of the file is a packet: the idle APID 2047 (with and without secondary header), APID 0, telecommand type,
+    # and neighbours that repeat a sequence count
+    mixed = [ccsds_bytes(b"a", apid=1, count=5), ccsds_bytes(b"b", apid=1, count=5), ccsds_bytes(b"cc", apid=2047, count=0),
+             ccsds_bytes(b"d", apid=2047, shf=1, count=0), ccsds_bytes(b"e", apid=0, type=1, count=7), ccsds_bytes(b"f", apid=0, type=1, count=7),
+             ccsds_bytes(b"gg", apid=2047, count=16383)]
+    cases["idle, telecommand and repeated-count packets"] = b"".join(mixed)
+    counts["idle, telecommand and repeated-count packets"] = len(mixed)
+    cases["only idle packets"] = mixed[2] + mixed[6]
+    counts["only idle packets"] = 2
     for name, data in cases.items():
         site = f"{fi.key}::real-framer::{name}"
         rec = Rec()
@@ -219,7 +228,9 @@ def real_framer(ctx: Ctx):
                    f"expected a listing of {npk} packets without a traceback", where=where(fi, fi.node))
     # parse command on the same kinds of files (definition stubbed out to header-only parsing through the real generator)
     fp = prog.func(f"{CLI}::parse")
-    for name, data in (("empty file", b""), ("2 stray bytes", b"\x01\x02"), ("3 packets", one * 3), ("2 packets and a cut third", one * 2 + one[:7])):
+    for name, data, pks in (("empty file", b"", []), ("2 stray bytes", b"\x01\x02", []), ("3 packets", one * 3, [one] * 3),
+                            ("2 packets and a cut third", one * 2 + one[:7], [one] * 2),
+                            ("idle, telecommand and repeated-count packets", b"".join(mixed), mixed)):
         site = f"{fp.key}::real-framer::{name}"
         rec = Rec()
         ext = rec.ext(opener=lambda *a, data=data, **k: file_source(data))
@@ -236,7 +247,8 @@ def real_framer(ctx: Ctx):
                 return Obj(None, packet_generator=pg)
         ext["XtcePacketDefinition"] = Obj(None, from_xtce=from_xtce)
         h = Harness(prog, ext, max_steps=60000)
-        for idx in (None, 0, 1, 2, 3, 7):
+        for idx in (None, 0, 1, 2, 3, 4, 5, 6, 7):
+            n_pp, n_pr = len(rec.pprinted), len(rec.printed)
             try:
                 kind, got = h.outcome("parse(pf, df, packet=idx, max_items=20, max_string=40, skip_header_bytes=0)", CLI,
                                       pf="P", df="X", idx=idx)
@@ -245,9 +257,27 @@ def real_framer(ctx: Ctx):
             except (Unsupported, Raised) as e:
                 ctx.unknown("R19.4", site, str(e))
                 break
-            ctx.decide(kind == "ok", "R19.4", f"{site}::index={idx}", "",
-                       f"spp parse --packet {idx} on a file with {name}: {'does not terminate' if kind == 'diverges' else 'ends in ' + str(got)}",
-                       where=where(fp, fp.node))
+            why = f"spp parse --packet {idx} on a file with {name}: {'does not terminate' if kind == 'diverges' else 'ends in ' + str(got)}"
+            ok = kind == "ok"
+            if ok:
+                # what is shown: all packets, packet number idx, or (only for idx >= number of packets) an out-of-range message
+                def raw_of(p):
+                    r = getattr(p, "attrs", {}).get("raw_data") if not isinstance(p, (bytes, bytearray)) else p
+                    return bytes(r) if isinstance(r, (bytes, bytearray)) else None
+                shown = rec.pprinted[n_pp:]
+                msgs = [m for m in rec.printed[n_pr:] if isinstance(m, str)]
+                if idx is None:
+                    ok = len(shown) == 1 and isinstance(shown[0], list) and [raw_of(x) for x in shown[0]] == pks
+                    why = f"spp parse on a file with {name} shows {len(shown[0]) if shown and isinstance(shown[0], list) else shown!r} packets; the file holds {len(pks)}"
+                elif idx < len(pks):
+                    ok = len(shown) == 1 and raw_of(shown[0]) == pks[idx] and not msgs
+                    why = (f"spp parse --packet {idx} on a file with {name} ({len(pks)} packets): "
+                           f"{'prints ' + repr(msgs[0]) if msgs else 'shows ' + (raw_of(shown[0]) or b'').hex() if shown else 'shows nothing'}; expected packet {idx} = {pks[idx].hex()}")
+                else:
+                    ok = not shown and len(msgs) == 1 and str(len(pks)) in msgs[0]
+                    why = (f"spp parse --packet {idx} on a file with {name} ({len(pks)} packets): expected one out-of-range message naming {len(pks)} packets, "
+                           f"got messages {msgs!r} and {len(shown)} shown object(s)")
+            ctx.decide(ok, "R19.4", f"{site}::index={idx}", "", why, where=where(fp, fp.node))
 
 
 def loops_rule(ctx: Ctx):
